@@ -757,7 +757,7 @@ Proof.
 Qed.
 Lemma K_sreset : forall cl s,
   K (s <| s_step := SS_IDLE |> <| s_state := ST_IDLE |> <| s_queue ::= (fun q => if cl : bool then [] else q) |>
-       <| s_p := reset_sparams |>).
+       <| s_ready ::= (fun n => if cl : bool then 0 else n) |> <| s_p := reset_sparams |>).
 Proof. intros cl s. unfold K. cbn. intros _. split; reflexivity. Qed.
 
 Lemma b_gq {A B} (f : sparams -> A) (k : A -> SM B) s : bind (gq f) k s = k (f (s_p s)) s.
@@ -781,7 +781,7 @@ Qed.
 Lemma b_sreset_internal {B} cl (k : unit -> SM B) s :
   bind (sreset_internal cl) k s =
   k tt (s <| s_step := SS_IDLE |> <| s_state := ST_IDLE |> <| s_queue ::= (fun q => if cl then [] else q) |>
-          <| s_p := reset_sparams |>).
+          <| s_ready ::= (fun n => if cl then 0 else n) |> <| s_p := reset_sparams |>).
 Proof. reflexivity. Qed.
 
 Ltac srun :=
@@ -1003,7 +1003,7 @@ Proof.
               match get_remote (l_remotes (s_cfg s)) (pr_dst p) with
               | Some r =>
                   setq (fun q => q <| q_conf ::= (fun c => c <| sc_dst := pr_dst p |> <| sc_dstw := pr_dstw p |>) |>) ;;;
-                  modify (fun s => s <| s_ready := 0 |> <| s_state := ST_BUSY |>) ;;;
+                  modify (fun s => s <| s_state := ST_BUSY |>) ;;;
                   setq (fun q => q <| q_conf ::= (fun c => c <| sc_mode := match pr_mode p with Some m => m | None => r_mode r end |>) |>
                                     <| q_closure := match pr_closure p with Some c => c | None => r_closure r end |>) ;;;
                   ret true
